@@ -181,7 +181,7 @@ def plan(prop, tier, seed):
     elif prop == "C02":
         data(n(40, 400)); fam(n(40, 500), scen.window_session, "window"); fam(n(25, 400), scen.refresh_session, "refresh"); fam(n(4, 40), scen.queue_full_session, "queue-full")
     elif prop == "C03":
-        data(n(50, 500), p_rel=0.5); data(n(5, 60), big_groups=True); fam(n(30, 400), scen.wrap_partial_session, "wrap-partial"); fam(n(4, 40), scen.queue_full_session, "queue-full")
+        data(n(50, 500), p_rel=0.5); data(n(5, 60), big_groups=True); fam(n(30, 400), scen.wrap_partial_session, "wrap-partial"); fam(n(4, 40), scen.queue_full_session, "queue-full"); fam(n(10, 150), scen.bad_group_session, "bad-groups")
     elif prop == "C04":
         data(n(25, 300))
         for _ in range(n(25, 400)):
@@ -236,7 +236,7 @@ def plan(prop, tier, seed):
         data(n(50, 800), with_close=True, updates=True); fam(n(30, 400), scen.window_session, "window"); fam(n(15, 300), scen.close_burst_session, "close-burst")
         for _ in range(n(20, 300)):
             G.append([("hs", scen.handshake_session(S(), hostile=False))])
-        fam(n(15, 200), scen.hostile_session, "hostile")
+        fam(n(15, 200), scen.hostile_session, "hostile"); fam(n(15, 200), scen.bad_group_session, "bad-groups")
     elif prop == "C17":
         for _ in range(n(12, 150)):
             G.append(twin_fill(S(), "data"))
